@@ -282,7 +282,7 @@ func (c *FnCtx) applyContract(con *Contract, callee *ssa.Function, args []string
 	env.heap = c.cur.clone()
 	env.old = pre
 	for _, cl := range con.Clauses {
-		if cl.Kind != "ensures" {
+		if cl.Kind != "ensures" && cl.Kind != "defines" {
 			continue
 		}
 		env.heap = c.cur.clone()
@@ -777,7 +777,7 @@ func (c *FnCtx) resolverAtEntry() func(string) (sv, bool) {
 func (c *FnCtx) instrReturn(x *ssa.Return) {
 	c.retCount++
 	// vacuity guard: this return must be reachable under everything assumed so far
-	c.covers = append(c.covers, &Oblig{Name: fmt.Sprintf("%s/cover/return@%s#%d", c.key, c.posStr(x.Pos()), c.retCount), Kind: "cover", Goal: c.guard(), Prefix: len(c.ctx), Fn: c.key, Cover: true, ctx: c, PosStr: c.posStr(x.Pos())})
+	c.covers = append(c.covers, &Oblig{Block: c.curBlock, Name: fmt.Sprintf("%s/cover/return@%s#%d", c.key, c.posStr(x.Pos()), c.retCount), Kind: "cover", Goal: c.guard(), Prefix: len(c.ctx), Fn: c.key, Cover: true, ctx: c, PosStr: c.posStr(x.Pos())})
 	c.checkTypeInvsAtReturn(x)
 	if c.con == nil {
 		return
@@ -858,9 +858,9 @@ func (c *FnCtx) valueAt(name string, b *ssa.BasicBlock, phiSubst map[*ssa.Phi]st
 			return v, true
 		}
 	}
-	// parameters
+	// parameters (name0 = the value at entry of a parameter that is reassigned)
 	for _, p := range c.fn.Params {
-		if p.Name() == name {
+		if p.Name() == name || p.Name()+"0" == name {
 			return sv{c.vals[p], p.Type()}, true
 		}
 	}
@@ -906,11 +906,34 @@ func (c *FnCtx) lastDefIn(name string, b *ssa.BasicBlock) (sv, bool) {
 
 func (c *FnCtx) invEnv(li *loopInfo, phiSubst map[*ssa.Phi]string, heap heapState) *specEnv {
 	env := c.conEnv()
+	env.vars = map[string]sv{} // names denote the current values of source variables at the loop head
 	env.pkg = c.pkgTypes()
 	env.heap = heap
 	env.old = c.entry
 	env.resolve = func(name string) (sv, bool) {
-		// hidden iterator positions: pos(<range var>) not supported; plain variables only
+		// hidden state of the (unique) range iterator advanced in this loop
+		if name == "iter_cnt" || name == "iter_pos" {
+			var found string
+			for h := range li.writes {
+				if strings.HasPrefix(h, "IT_") {
+					isCnt := strings.HasSuffix(h, "_cnt")
+					if isCnt == (name == "iter_cnt") {
+						if found != "" && found != h {
+							return sv{}, false // ambiguous
+						}
+						found = h
+					}
+				}
+			}
+			if found == "" {
+				return sv{}, false
+			}
+			t, ok := env.heap[found]
+			if !ok {
+				return sv{}, false
+			}
+			return sv{t, tInt}, true
+		}
 		return c.valueAt(name, li.header, phiSubst)
 	}
 	return env
@@ -918,6 +941,17 @@ func (c *FnCtx) invEnv(li *loopInfo, phiSubst map[*ssa.Phi]string, heap heapStat
 
 // evalCandidate evaluates a Houdini candidate in the heap state env.heap.
 func (c *FnCtx) evalCandidate(cand *candidate, env *specEnv) (string, error) {
+	if cand.iterVar != "" {
+		v, ok := env.resolve(cand.iterName)
+		if !ok {
+			return "", fmt.Errorf("no variable %s", cand.iterName)
+		}
+		cur, ok := env.heap[cand.iterVar]
+		if !ok {
+			return "", fmt.Errorf("no iterator state")
+		}
+		return eq(v.t, cur), nil
+	}
 	if cand.frame == "" {
 		return env.evalBool(cand.e)
 	}
@@ -1017,7 +1051,7 @@ func (c *FnCtx) checkInvariants(li *loopInfo, pred *ssa.BasicBlock) {
 			cand.alive = false
 			continue
 		}
-		o := &Oblig{Kind: "houdini", Goal: implies(e, t), Prefix: len(c.ctx), Fn: c.key, Detail: cand.text, ctx: c}
+		o := &Oblig{Block: pred, Kind: "houdini", Goal: implies(e, t), Prefix: len(c.ctx), Fn: c.key, Detail: cand.text, ctx: c}
 		o.Name = fmt.Sprintf("%s/houdini/loop%d/%d/%s", c.key, li.ordinal, ci, kind)
 		c.houdiniObs = append(c.houdiniObs, &houdiniOb{o: o, cand: cand})
 	}
@@ -1176,6 +1210,7 @@ func (e *Engine) instrWrites(c *FnCtx, in ssa.Instruction, w map[string]bool) {
 			if _, ok := types.Unalias(x.X.Type()).Underlying().(*types.Basic); ok {
 				w["IT_"+sanitize(x.Name())] = true
 			}
+			w["IT_"+sanitize(x.Name())+"_cnt"] = true
 		}
 	case *ssa.Next:
 		if c != nil {
@@ -1183,6 +1218,7 @@ func (e *Engine) instrWrites(c *FnCtx, in ssa.Instruction, w map[string]bool) {
 				if _, ok := types.Unalias(r.X.Type()).Underlying().(*types.Basic); ok {
 					w["IT_"+sanitize(r.Name())] = true
 				}
+				w["IT_"+sanitize(r.Name())+"_cnt"] = true
 			}
 		}
 	case *ssa.Call:
